@@ -105,9 +105,13 @@ def drain_runs(ops):
     return ntok + nrx + 2 * (inb // BUFSZ) + 6
 
 
-def render_sim(case):
-    pre = preamble(case["flags"])
-    cmds = list(pre)
+STREAM_END = "</stream:stream>"
+
+
+def body_cmds(case):
+    """simworld commands of a session body: the ops, the drain, and (case["fin"]) the server's last chunk, deflated with
+    Z_FINISH, followed by one iteration"""
+    cmds = []
     for o in case["ops"]:
         if o[0] == "send":
             cmds.append("sendraw " + (o[1] or "-"))
@@ -118,7 +122,32 @@ def render_sim(case):
         elif o[0] == "run":
             cmds.append("run %d" % o[1])
     cmds.append("run %d" % drain_runs(case["ops"]))
-    return ";".join(cmds), count_runs(pre)
+    if case.get("fin"):
+        cmds += ["rxfin " + case["fin"], "run %d" % fin_runs(case)]
+    return cmds
+
+
+def fin_runs(case):
+    return 2 * (len(case["fin"]) // 2 // BUFSZ) + 3
+
+
+def fin_view(case, o):
+    """a session ends in the iteration that parses the server's </stream:stream>; what the scenario runs after it is
+    cut off (-> case and observation restricted to the iterations up to the clean stream end)"""
+    if not case.get("fin") or o.crash:
+        return case, o
+    its = by_iteration(o.trace)
+    j = next((k for k, seg in enumerate(its) if any(t.startswith("E0:disconnect(err=0,") for t in seg)), None)
+    if j is None:
+        return case, o
+    o.trace = [t for seg in its[:j + 1] for t in seg + ["|"]]
+    o.hooks = [t for seg in by_iteration(o.hooks)[:j + 1] for t in seg + ["|"]]
+    return dict(case, _cut=j + 1), o
+
+
+def render_sim(case):
+    pre = preamble(case["flags"])
+    return ";".join(pre + body_cmds(case)), count_runs(pre)
 
 
 def body_iterations(case):
@@ -130,7 +159,101 @@ def body_iterations(case):
         else:
             out.append(o)
     out += [["run"]] * drain_runs(case["ops"])
+    if case.get("fin"):
+        out += [["rx", case["fin"], "fin"]] + [["run"]] * fin_runs(case)
+    if case.get("_cut") is not None:
+        res, n = [], 0
+        for x in out:
+            if n >= case["_cut"]:
+                break
+            res.append(x)
+            n += x[0] == "run"
+        out = res
     return out
+
+
+# ----------------------------------------------------------------------------------------------
+# several sessions on one connection object: case["sessions"] = [{"variant", "ops", "fin"?}, ...]
+# ----------------------------------------------------------------------------------------------
+def session_case(case, s):
+    c = {"flags": case["flags"], "ops": s["ops"], "kind": case.get("kind"), "plain": s["variant"] != "normal" or not case["flags"] & 64}
+    if s.get("fin"):
+        c["fin"] = s["fin"]
+    return c
+
+
+def render_sessions(case):
+    """-> scenario line, [(first body iteration, number of body iterations, first iteration of the session)]"""
+    cmds, marks, it = [], [], 0
+    for k, s in enumerate(case["sessions"]):
+        pre = preamble(case["flags"], s["variant"])
+        if k > 0:
+            pre = pre[pre.index("connect client"):]
+        start = it
+        cmds += pre
+        it += count_runs(pre)
+        b = body_cmds(session_case(case, s))
+        cmds += b
+        n = count_runs(b)
+        marks.append((it, n, start))
+        it += n
+        close = ([] if s.get("fin") else ["rx " + hx(STREAM_END), "run"]) + ["run"]
+        cmds += close
+        it += count_runs(close)
+    return ";".join(cmds), marks
+
+
+def parse_sessions(line, marks):
+    """-> (crash | None, [Obs per session], whole trace tokens, end info, [hook tokens of each session's first 3 iterations])"""
+    if line is None or line.startswith("CRASH"):
+        return (line or "no output")[:300], [], [], None, []
+    if "# " not in line:
+        return "the scenario did not run to its end (output so far: %s)" % line[-120:], [], [], None, []
+    hooks, trace = line.split("# ", 1)
+    hk_its, tr_its = by_iteration(hooks.split()), by_iteration(trace.split())
+    m = re.search(r"END live=(\d+) allocerr=(\d+) fds=(\d+)/(\d+)", trace)
+    end = tuple(int(x) for x in m.groups()) if m else None
+    obs, heads = [], []
+    for (a, n, start) in marks:
+        o = Obs()
+        o.crash = None
+        o.raw = line
+        o.hooks = [t for seg in hk_its[a:a + n] for t in seg + ["|"]]
+        o.trace = [t for seg in tr_its[a:a + n] for t in seg + ["|"]]
+        o.tail, o.pre_hooks, o.pre_trace, o.trace_tail = [], [], [], []
+        o.end = (0, 0, 0, 0)
+        obs.append(o)
+        heads.append([t for seg in hk_its[start:start + 3] for t in seg])
+    return None, obs, trace.split(), end, heads
+
+
+def judge_sessions(case, line):
+    """oracle for a multi-session scenario -> (list of violations, [Obs], [session cases])"""
+    sim, marks = render_sessions(case)
+    crash, obs, trace, end, heads = parse_sessions(line, marks)
+    if crash:
+        return ["implementation: " + crash], [], []
+    bad = []
+    for t in trace:
+        if t.startswith(("ZERR", "SENDERR", "RECVERR", "ALLOCERR", "CLOSEERR", "BADCMD", "NOCONN", "NOFD")):
+            bad.append("anomaly in the trace: " + t)
+            break
+    if end is None or end[0] != 0 or end[1] != 0:
+        bad.append("end of scenario: %s (expected live=0 allocerr=0)" % (end,))
+    ndisc = sum(1 for t in trace if t.startswith("E0:disconnect"))
+    nclean = sum(1 for t in trace if t.startswith("E0:disconnect(err=0,"))
+    if ndisc != len(case["sessions"]) or nclean != ndisc:
+        bad.append("%d sessions, %d disconnect notifications, %d of them clean stream ends" % (len(case["sessions"]), ndisc, nclean))
+    scs = []
+    for k, (s, o, head) in enumerate(zip(case["sessions"], obs, heads)):
+        sc, o = fin_view(session_case(case, s), o)
+        obs[k] = o
+        scs.append(sc)
+        if any(t[0] in "wndip" for t in head):
+            bad.append("session %d: the compression layer is active before anything was negotiated on this connection (%s)" % (k + 1, head[:3]))
+        for b in oracle(sc, o):
+            bad.append("session %d (%s): %s" % (k + 1, s["variant"], b))
+    return bad, obs, scs
 
 
 # ----------------------------------------------------------------------------------------------
@@ -226,6 +349,7 @@ def oracle(case, o):
     wire = b""           # what the server obtained by inflating what the transport accepted
     k = 0
     disconnected = False
+    clean_end = False
     for x in its:
         if x[0] == "send":
             if not disconnected:
@@ -237,6 +361,9 @@ def oracle(case, o):
                 if m:
                     wire += bytes.fromhex(m.group(1))
                 if t.startswith("E0:disconnect"):
+                    if case.get("_cut") is not None and k == n_iter - 1 and t.startswith("E0:disconnect(err=0,"):
+                        clean_end = True          # the server's last block carried </stream:stream>
+                        continue
                     disconnected = True
                     if not hard:
                         bad.append("iteration %d: connection torn down (%s) although neither the transport nor the peer failed" % (k, t))
@@ -254,9 +381,15 @@ def oracle(case, o):
             k += 1
     if not hard and not disconnected and not bad and wire != sub:
         bad.append("end: %d of %d submitted bytes never reached the server" % (len(sub) - len(wire), len(sub)))
+    if case.get("fin") and not clean_end and not hard and not disconnected:
+        bad.append("the server ended its deflate stream (Z_FINISH) with </stream:stream>: no clean stream end was reported")
     # --- inbound
     srv = b"".join(bytes.fromhex(x[1]) for x in its if x[0] == "rx")
     fed = b"".join(bytes.fromhex(t[1:]) for t in o.hooks if t.startswith("p") and t != "p-")
+    if case.get("plain"):
+        fed = srv                        # no layer in this session: the parser input is not recorded byte-wise
+        if any(t[0] in "wndip" for t in o.hooks):
+            bad.append("compression layer active in a session that did not negotiate it")
     if not srv.startswith(fed):
         cp = len(os.path.commonprefix([srv, fed]))
         bad.append("parser input differs from what the server deflated (first difference at byte %d of %d)" % (cp, len(srv)))
@@ -268,6 +401,8 @@ def oracle(case, o):
         bad.append("handler saw %s, the server sent %s" % (got[:6], want[:6]))
     elif not disconnected and case.get("terminated") and len(got) < len(want) - 2:
         bad.append("handler saw %d of the %d inbound stanzas" % (len(got), len(want)))
+    elif not disconnected and (case.get("fin") or case.get("plain")) and got != want:
+        bad.append("handler saw %d of the %d inbound stanzas (%s...)" % (len(got), len(want), got[-2:]))
     return bad
 
 
@@ -503,6 +638,64 @@ def gen_mixed(rng, flags):
     return {"flags": flags, "ops": ops, "kind": "mixed", "terminated": True}
 
 
+def session_traffic(rng, k, compressed, fin):
+    """traffic in both directions for session k; inbound chunks are stanza-aligned (ids s<k>i<j>)"""
+    ops = []
+    nin = rng.randint(1, 3)
+    stanzas = [in_stanza(rng, "s%di%d" % (k, j), rng.choice([0, 20, 300, 5000] if compressed else [0, 20, 300]),
+                         rng.choice(["text", "rand", "run"])) for j in range(nin)]
+    for _ in range(rng.randint(1, 3)):
+        ops.append(["send", out_stanza(rng, rng.choice([1, 40, 700, 5000]), rng.choice(["text", "rand"]))])
+        if compressed and rng.random() < .4:
+            ops.append(["tx", sched(rng, rng.randint(1, 3), "mixed")])
+        if stanzas and rng.random() < .8:
+            ops.append(["rx", stanzas.pop(0).encode().hex()])
+        ops.append(["run", rng.randint(1, 2)])
+    for st in stanzas:
+        ops += [["rx", st.encode().hex()], ["run", 1]]
+    s = {"ops": ops}
+    if fin:
+        s["fin"] = ("<message id='s%dlast'><body>bye</body></message>" % k + STREAM_END).encode().hex()
+    return s
+
+
+def gen_sessions(rng, flags, plan):
+    """plan: [(variant, server finishes its deflate stream?)...] - sessions on ONE connection object, no TLS"""
+    sessions = []
+    for k, (variant, fin) in enumerate(plan):
+        s = session_traffic(rng, k + 1, variant == "normal" and bool(flags & 64), fin)
+        s["variant"] = variant
+        sessions.append(s)
+    return {"flags": flags, "sessions": sessions,
+            "kind": "sessions-" + "+".join(("z" if v == "normal" else "plain") + ("F" if f else "") for v, f in plan)}
+
+
+SESSION_PLANS = [
+    [("normal", False), ("normal", False)],
+    [("normal", True), ("normal", False)],
+    [("normal", False), ("normal", True)],
+    [("normal", True), ("normal", True), ("normal", False)],
+    [("normal", False), ("normal", False), ("normal", True)],
+    [("normal", False), ("no-offer", False)],
+    [("normal", True), ("no-offer", False)],
+    [("no-offer", False), ("normal", True)],
+    [("normal", False), ("no-offer", False), ("normal", False)],
+]
+
+
+def gen_fin(rng, flags, sizes, kinds):
+    """one session whose server ends its deflate stream with the last stanza and </stream:stream>"""
+    ops = []
+    for j, n in enumerate(sizes):
+        ops.append(["rx", in_stanza(rng, "i%d" % j, n, rng.choice(kinds)).encode().hex()])
+        if rng.random() < .5:
+            ops.append(["send", out_stanza(rng, rng.choice([1, 100, 3000]), "text")])
+        if rng.random() < .7:
+            ops.append(["run", 1])
+    last = in_stanza(rng, "last", rng.choice([0, 3, 200, 6000]), rng.choice(kinds))
+    return {"flags": flags, "ops": ops, "fin": (last + STREAM_END).encode().hex(), "kind": "in-server-finishes"}
+
+
 def corpus_cases():
     p = os.path.join(vlib.ROOT, "corpus", "C20.txt")
     out = []
@@ -511,7 +704,11 @@ def corpus_cases():
             l = l.strip()
             if l and not l.startswith("#"):
                 rec = json.loads(l)
-                rec["ops"] = expand_ops(rec["ops"])
+                if "sessions" in rec:
+                    for x in rec["sessions"]:
+                        x["ops"] = expand_ops(x["ops"])
+                else:
+                    rec["ops"] = expand_ops(rec["ops"])
                 rec["kind"] = "corpus:" + rec.get("label", "?")
                 out.append(rec)
     return out
@@ -579,6 +776,15 @@ def gen_cases(chk):
                     cases.append({"flags": 64, "ops": ops, "kind": "in-marker-split", "terminated": True})
     for _ in range(2500 if thorough else 40):
         cases.append(gen_mixed(rng, rng.choice([64, 192])))
+    # the server finishes its deflate stream (Z_FINISH) with its last stanza and the stream end
+    for _ in range(60 if thorough else 8):
+        cases.append(gen_fin(rng, rng.choice([64, 192]), [rng.choice([0, 10, 500, 5000, 9000]) for _ in range(rng.randint(0, 3))],
+                             ["text", "rand", "run"]))
+    # two and three sessions on one connection object without TLS (TLS disabled / not offered), compressed and not
+    for _ in range(8 if thorough else 1):
+        for plan in SESSION_PLANS:
+            for flags in (65, 64, 193):
+                cases.append(gen_sessions(rng, flags, plan))
     return cases
 
 
@@ -665,6 +871,10 @@ def cleanup_private():
 
 def classify(case, what):
     """which of the defect classes found so far a failing scenario belongs to (for the report; nothing is suppressed)"""
+    if "sessions" in case:
+        return "reconnect-with-compression"
+    if case.get("fin") and ("clean stream end" in what or "torn down" in what or "parser input" in what or "handler saw" in what):
+        return "server-finishes-deflate-stream"
     its = case["ops"]
     sends = [o for o in its if o[0] == "send"]
     toks = [t for o in its if o[0] == "tx" for t in o[1]]
@@ -686,13 +896,19 @@ def classify(case, what):
 
 def slim(case):
     """case for reports: long payloads abbreviated (the replay file keeps the scenario line)"""
+    if "sessions" in case:
+        return {"flags": case["flags"], "kind": case.get("kind"),
+                "sessions": [dict(slim({"flags": case["flags"], "ops": x["ops"]}), variant=x["variant"], fin=bool(x.get("fin"))) for x in case["sessions"]]}
     ops = []
     for o in case["ops"]:
         if o[0] in ("send", "rx") and len(o[1]) > 80:
             ops.append([o[0], "%s...(%d bytes)" % (o[1][:40], len(o[1]) // 2)])
         else:
             ops.append(o)
-    return {"flags": case["flags"], "kind": case.get("kind"), "ops": ops[:40]}
+    r = {"flags": case["flags"], "kind": case.get("kind"), "ops": ops[:40]}
+    if case.get("fin"):
+        r["fin"] = case["fin"] if len(case["fin"]) <= 80 else "%s...(%d bytes)" % (case["fin"][:40], len(case["fin"]) // 2)
+    return r
 
 
 def compare(chk, case, o, model_r, model_s, sim_line):
@@ -741,42 +957,57 @@ def run_spread(exe, lines):
 
 
 def evaluate(chk, cases, exe, mexe):
-    sims = [render_sim(c) for c in cases]
+    sims = [(render_sessions(c)[0], None) if "sessions" in c else render_sim(c) for c in cases]
     t0 = time.time()
     impl = run_spread(exe, [s[0] for s in sims])
     chk.extra["impl_seconds"] = round(time.time() - t0, 1)
-    obs = [parse_impl(l, s[1]) for l, s in zip(impl, sims)]
+    # units of model comparison: (case index, single-session case, observation)
+    units, verdicts, crashed = [], [], []
+    for i, (case, l) in enumerate(zip(cases, impl)):
+        if "sessions" in case:
+            bad, obs, scs = judge_sessions(case, l)
+            verdicts.append(bad)
+            crashed.append(not obs)
+            units += [(i, sc, o) for sc, o in zip(scs, obs) if not sc.get("plain")]
+        else:
+            cv, o = fin_view(case, parse_impl(l, sims[i][1]))
+            verdicts.append(oracle(cv, o))
+            crashed.append(bool(o.crash))
+            if not o.crash:
+                units.append((i, cv, o))
     model_r = model_s = None
     if mexe:
         t0 = time.time()
-        lines_r = [model_line_replay(c, o) if not o.crash else "R0" for c, o in zip(cases, obs)]
-        lines_s = [model_line_stored(c) for c in cases]
-        both = run_spread(mexe, lines_r + lines_s)
-        model_r, model_s = both[:len(cases)], both[len(cases):]
+        both = run_spread(mexe, [model_line_replay(c, o) for _, c, o in units] + [model_line_stored(c) for _, c, _ in units])
+        model_r, model_s = both[:len(units)], both[len(units):]
         chk.extra["model_seconds"] = round(time.time() - t0, 1)
-    for i, (case, o) in enumerate(zip(cases, obs)):
+    for i, case in enumerate(cases):
         chk.evaluations += 1
         chk.count(case.get("kind", "?"))
-        key = json.dumps([case["flags"], case["ops"]])
-        if not o.crash and any(t[0] in "np" for t in o.hooks):
-            chk.nontrivial.add(hash(key))
-        for b in oracle(case, o)[:3]:
-            chk.fail(slim(case), b, extra={"scenario": sims[i][0], "label": case.get("kind"), "class": classify(case, b)})
-        if not o.crash:
-            for t in o.hooks:
-                if t[0] == "n":
-                    m = re.match(r"^n(\d+)=(-?\d+):", t)
-                    ln, ret = int(m.group(1)), int(m.group(2))
-                    chk.count("obs:transport-write-" + ("full" if ret == ln else "refused" if ret < 0 else "short"))
-                    if ln == 4096:
-                        chk.count("obs:staging-buffer-full-write")
-                elif t[0] == "i":
-                    chk.count("obs:inflate-call")
-            if model_r is not None:
-                compare(chk, case, o, model_r[i], model_s[i], sims[i][0])
-        if i % max(1, len(cases) // 6) == 0:
-            chk.sample({"case": slim(case), "impl_hooks": " ".join(t[:40] for t in (o.hooks if not o.crash else [])[:30]),
-                        "model_replay": (model_r[i] if model_r else "")[:200]})
+        extra = {"scenario": sims[i][0], "label": case.get("kind")}
+        if "sessions" in case:
+            extra["case_json"] = json.dumps(case)
+        for b in verdicts[i][:3]:
+            chk.fail(slim(case), b, extra=dict(extra, **{"class": classify(case, b)}))
+    for u, (i, case, o) in enumerate(units):
+        if any(t[0] in "np" for t in o.hooks):
+            chk.nontrivial.add(hash(json.dumps([i, case["flags"], case["ops"]])))
+        for t in o.hooks:
+            if t[0] == "n":
+                m = re.match(r"^n(\d+)=(-?\d+):", t)
+                ln, ret = int(m.group(1)), int(m.group(2))
+                chk.count("obs:transport-write-" + ("full" if ret == ln else "refused" if ret < 0 else "short"))
+                if ln == 4096:
+                    chk.count("obs:staging-buffer-full-write")
+            elif t[0] == "i":
+                chk.count("obs:inflate-call")
+                if t.split(":")[0].endswith(",1"):
+                    chk.count("obs:inflate-stream-end")
+        if model_r is not None:
+            compare(chk, case, o, model_r[u], model_s[u], sims[i][0])
+        if u % max(1, len(units) // 6) == 0:
+            chk.sample({"case": slim(case), "impl_hooks": " ".join(t[:40] for t in o.hooks[:30]),
+                        "model_replay": (model_r[u] if model_r else "")[:200]})
 
 
 def run(chk):
@@ -848,6 +1079,17 @@ def replay(path):
     exe = build_impl()
     line = vlib.run_lines(exe, [sim])[0]
     cleanup_private()
+    if f.get("case_json"):
+        case = json.loads(f["case_json"])
+        bad, obs, scs = judge_sessions(case, line)
+        print("scenario: %s" % (sim if len(sim) < 2000 else sim[:2000] + "..."))
+        for k, (sc, o) in enumerate(zip(scs, obs)):
+            print("session %d hooks: %s" % (k + 1, " ".join(t[:50] for t in o.hooks)[:1500]))
+            print("session %d trace: %s" % (k + 1, " ".join(t[:50] for t in o.trace)[:1500]))
+        if not obs:
+            print("impl    : %s" % (line or "")[:600])
+        print("property: %s" % ("holds" if not bad else "; ".join(bad)))
+        return 0 if not bad else 1
     mark = count_runs(preamble(64))
     o = parse_impl(line, mark)
     print("scenario: %s" % (sim if len(sim) < 2000 else sim[:2000] + "..."))
@@ -872,6 +1114,21 @@ def replay(path):
             ops.append(["run", int(a[1]) if len(a) > 1 else 1])
     fl = int(cmds[1].split(" ")[1])
     case = {"flags": fl, "ops": ops}
+    if cmds[-2].startswith("rxfin "):
+        # ... ; run <drain> ; rxfin <hex> ; run <n>
+        case["fin"] = cmds[-2].split(" ")[1]
+        ops[:] = []
+        for c in cmds[npre:-3]:
+            a = c.split(" ")
+            if a[0] == "sendraw":
+                ops.append(["send", "" if a[1] == "-" else a[1]])
+            elif a[0] == "tx":
+                ops.append(["tx", a[1].split(",")])
+            elif a[0] == "rx":
+                ops.append(["rx", a[1]])
+            elif a[0] == "run":
+                ops.append(["run", int(a[1]) if len(a) > 1 else 1])
+        case, o = fin_view(case, o)
     verdict = oracle(case, o)
     agree = True
     try:
